@@ -562,7 +562,14 @@ def oracle_batch(c, res):
 
 
 # ----------------------------------------------------------------------------- translator tie
-def translator_markers():
+def translator_markers(ctx=None):
+    """the facade methods the table Coq was built against says are marked: read from the source by the translator, or --
+    when the translator could not read the current source and the driver installed the pinned table -- from that table"""
+    if ctx is not None and "batchable.py" in getattr(ctx, "fallbacks", {}):
+        import re
+        txt = (ROOT / "coq" / "gen" / "Batchable.v").read_text()
+        fac = txt[txt.index("Definition backend_facade"):txt.index("Definition arrayapi_table")]
+        return sorted(m.group(1) for m in re.finditer(r'\("([^"]*)", "[^"]*", (true|false), \d+\)', fac) if m.group(2) == "true")
     spec = importlib.util.spec_from_file_location("batchable_translator", ROOT / "translate" / "batchable.py")
     m = importlib.util.module_from_spec(spec)
     spec.loader.exec_module(m)
@@ -618,7 +625,7 @@ def run(ctx, res):
                 "non-trivial = rank >= 1 and >= 2 elements; distinct = distinct (backend, op, form, shapes, axis, indices, dtype, partition)")
     # (T) translator table == run-time markers
     try:
-        tm, rm = translator_markers(), runtime_marked()
+        tm, rm = translator_markers(ctx), runtime_marked()
         if tm != rm:
             res.disagree(f"marker table read by translate/batchable.py {tm} differs from run-time batchable attributes {rm}", {"translator": tm, "runtime": rm})
         res.extra["batchable_marked_runtime"] = rm
